@@ -296,9 +296,8 @@ def run(tier, seed):
             ob = observed_label(r["leaves"][0]["expo"])
             want = "*".join(f"u{g}^{ob[g].numerator if ob[g].denominator == 1 else str(ob[g].numerator) + '/' + str(ob[g].denominator)}"
                             for g in sorted(ob)) if r["leaves"][0]["carries"] else ""
-            kernel = rp[2].split("(")[0]
-            if rp[1] != want or kernel != ("numpy.vstack" if r["func"] == "numpy.hstack" else r["func"]):
-                chk.disagree("c07.attach", f"{r['case'][0]}: Np.run with the unit rule gives label {rp[1]!r} kernel {kernel}; observed label {want!r}")
+            if rp[1] != want:  # (which kernel runs is C06's matter: rp[2] is what its regenerated row says)
+                chk.disagree("c07.attach", f"{r['case'][0]}: Np.run with the unit rule gives label {rp[1]!r}; observed label {want!r}")
                 suspects.add(r["func"])
 
     # rows whose defects are not on the exclusion list (a broken table obligation names them)
